@@ -400,3 +400,139 @@ Proof.
     repeat split. exact Hs.
   - rewrite bytes_of_app. unfold bytes_of at 2. cbn [flat_map snd pg_data]. rewrite app_nil_r. reflexivity.
 Qed.
+
+(* ---------- what a track has been asked to write ---------- *)
+
+Definition hdr_id (tr : track) : pkt3 :=
+  (ht_bos, build_id_header (tr_map tr) (tr_preskip tr) (tr_rate tr), 0).
+Definition hdr_tags (tr : track) : pkt3 := (0, build_comment_header (tr_tags tr), 0).
+
+(* accepted Opus packets with their sample counts; granule = running sum mod 2^64 *)
+Fixpoint data_pkts (g : N) (ps : list (list N * N)) : list pkt3 :=
+  match ps with
+  | [] => []
+  | (p, n) :: t => (0, p, u64 (g + n)) :: data_pkts (u64 (g + n)) t
+  end.
+Fixpoint gsum (g : N) (ps : list (list N * N)) : N :=
+  match ps with [] => g | (p, n) :: t => gsum (u64 (g + n)) t end.
+
+Lemma data_pkts_snoc : forall ps g p n,
+  data_pkts g (ps ++ [(p, n)]) = data_pkts g ps ++ [(0, p, u64 (gsum g ps + n))] /\
+  gsum g (ps ++ [(p, n)]) = u64 (gsum g ps + n).
+Proof.
+  induction ps as [|[q m] ps IH]; intros g p n; cbn [app data_pkts gsum].
+  - split; reflexivity.
+  - destruct (IH (u64 (g + m)) p n) as [H1 H2]. rewrite H1, H2. split; reflexivity.
+Qed.
+
+Definition same_static (a b : track) : Prop :=
+  tr_serial a = tr_serial b /\ tr_rate a = tr_rate b /\ tr_map a = tr_map b /\
+  tr_preskip a = tr_preskip b /\ tr_tags a = tr_tags b.
+
+Lemma same_static_refl : forall a, same_static a a.
+Proof. intros a. repeat split. Qed.
+Lemma same_static_trans : forall a b c, same_static a b -> same_static b c -> same_static a c.
+Proof.
+  intros a b c (H1 & H2 & H3 & H4 & H5) (G1 & G2 & G3 & G4 & G5).
+  repeat split; congruence.
+Qed.
+Lemma same_static_hdrs : forall a b, same_static a b -> hdr_id a = hdr_id b /\ hdr_tags a = hdr_tags b.
+Proof.
+  intros a b (H1 & H2 & H3 & H4 & H5). unfold hdr_id, hdr_tags. rewrite H2, H3, H4, H5. split; reflexivity.
+Qed.
+
+Lemma R_set_granule : forall rw log tr pkts g, R rw log tr pkts -> R rw log (set_granule tr g) pkts.
+Proof. intros rw log tr pkts g H. exact H. Qed.
+
+Lemma write_opus_own : forall rw log tr pkts payload n,
+  R rw log tr pkts -> opus_sample_count payload = Ok n ->
+  exists pgs tr',
+    write_opus_payload writer_table rw (bytes_of log) tr payload
+      = Ok (bytes_of (log ++ tag (tr_serial tr) pgs), tr') /\
+    same_static tr' tr /\ tr_prev_granule tr' = u64 (tr_prev_granule tr + n) /\
+    R rw (log ++ tag (tr_serial tr) pgs) tr' (pkts ++ [(0, payload, u64 (tr_prev_granule tr + n))]).
+Proof.
+  intros rw log tr pkts payload n HR Hn. unfold write_opus_payload. rewrite Hn.
+  set (tr1 := set_granule tr (u64 (tr_prev_granule tr + n))).
+  destruct (write_page_own rw log tr1 pkts payload 0 (tr_prev_granule tr1) (R_set_granule _ _ _ _ _ HR))
+    as (pgs & tr' & Hw & _ & _ & Hs & Hg & Hr & Hm & Hp & Ht & HR').
+  exists pgs, tr'. split; [exact Hw|]. split; [| split; [exact Hg | exact HR']].
+  repeat split; assumption.
+Qed.
+
+Lemma write_opus_err : forall rw out tr payload e,
+  opus_sample_count payload = Err e ->
+  write_opus_payload writer_table rw out tr payload = Err e.
+Proof. intros. unfold write_opus_payload. rewrite H. reflexivity. Qed.
+
+Lemma opus_frame_count_no_panic : forall toc tl, opus_frame_count (toc :: tl) <> Panic.
+Proof.
+  intros toc tl. unfold opus_frame_count.
+  destruct (N.land toc 3) as [|p]; [discriminate|].
+  destruct p as [q|q|]; [| destruct q |]; try discriminate.
+  all: destruct tl; try discriminate; destruct (_ =? 0); discriminate.
+Qed.
+
+Lemma opus_sample_count_no_panic : forall payload, opus_sample_count payload <> Panic.
+Proof.
+  intros payload. unfold opus_sample_count.
+  destruct payload as [|toc tl]; [discriminate|].
+  pose proof (opus_frame_count_no_panic toc tl) as H.
+  destruct (opus_frame_count (toc :: tl)); [| discriminate | congruence].
+  destruct (_ <? _); discriminate.
+Qed.
+
+(* the packets a writer accepts from a list of RTP payloads *)
+Fixpoint accepted (ops : list (list N)) : list (list N * N) :=
+  match ops with
+  | [] => []
+  | p :: t =>
+      match p with
+      | [] => accepted t
+      | _ => match opus_sample_count p with
+             | Ok n => (p, n) :: accepted t
+             | _ => accepted t
+             end
+      end
+  end.
+
+(* ---------- single-track writer ---------- *)
+
+Definition sinv (w : swriter) (cfg : track) (ps : list (list N * N)) (log : list wpage) : Prop :=
+  sw_out w = bytes_of log /\ same_static (sw_track w) cfg /\
+  R (sw_fd w) log (sw_track w) ([hdr_id cfg; hdr_tags cfg] ++ data_pkts 0 ps) /\
+  tr_prev_granule (sw_track w) = gsum 0 ps /\
+  Forall (fun sp => fst sp = tr_serial cfg) log.
+
+Lemma R_fresh : forall rw tr, tr_page_index tr = 0 -> tr_last tr = None -> R rw [] tr [].
+Proof.
+  intros rw tr Hi Hl. unfold R, mine. cbn [filter map length].
+  split; [constructor|]. split; [exact Hi|]. unfold last_ok, mine. cbn [filter map]. destruct rw; exact Hl.
+Qed.
+
+Lemma Forall_tag : forall s pgs, Forall (fun sp : wpage => fst sp = s) (tag s pgs).
+Proof. intros s pgs. unfold tag. apply Forall_forall. intros x Hx. apply in_map_iff in Hx. destruct Hx as (p & <- & _). reflexivity. Qed.
+
+Lemma new_single_inv : forall fd rate cm serial t,
+  exists w log, new_single fd rate cm serial t = Ok w /\ sw_fd w = fd /\
+                sinv w (new_track rate cm serial t) [] log.
+Proof.
+  intros fd rate cm serial t. unfold new_single.
+  set (tr := new_track rate cm serial t).
+  pose proof (R_fresh fd tr eq_refl eq_refl) as H0.
+  destruct (write_page_own fd [] tr [] (build_id_header (tr_map tr) (tr_preskip tr) (tr_rate tr)) ht_bos 0 H0)
+    as (pgs1 & tr1 & Hw1 & _ & _ & Hs1 & Hg1 & Hr1 & Hm1 & Hp1 & Ht1 & HR1).
+  change (bytes_of []) with (@nil N) in Hw1.
+  unfold write_id_header. rewrite Hw1.
+  destruct (write_page_own fd _ tr1 _ (build_comment_header (tr_tags tr1)) 0 0 HR1)
+    as (pgs2 & tr2 & Hw2 & _ & _ & Hs2 & Hg2 & Hr2 & Hm2 & Hp2 & Ht2 & HR2).
+  unfold write_comment_header. rewrite Hw2.
+  eexists. eexists. split; [reflexivity|]. cbn [sw_fd]. split; [reflexivity|].
+  unfold sinv. cbn [sw_out sw_track sw_fd].
+  assert (Hst : same_static tr2 tr) by (repeat split; congruence).
+  split; [reflexivity|]. split; [exact Hst|]. split; [| split].
+  - cbn [app] in HR2. unfold hdr_id, hdr_tags. cbn [data_pkts app].
+    rewrite Ht1 in HR2. exact HR2.
+  - rewrite Hg2, Hg1. reflexivity.
+  - cbn [app]. apply Forall_app. split; [| rewrite Hs1]; apply Forall_tag.
+Qed.
